@@ -5,6 +5,7 @@ import (
 	"go/token"
 	"sort"
 	"strconv"
+	"strings"
 )
 
 // string constants of commands.go that the model mirrors
@@ -88,6 +89,8 @@ func factsClient(p *pkg, o *out) {
 		var senders []string
 		calls := map[string]map[string]bool{}
 		exported := map[string]bool{}
+		receivers, ioUsers, muLockers := map[string]bool{}, map[string]bool{}, map[string]bool{}
+		var allNames []string
 		for _, fd := range p.allFuncs() {
 			if fd.Body == nil {
 				continue
@@ -110,6 +113,7 @@ func factsClient(p *pkg, o *out) {
 				name = recvType + "." + name
 			}
 			calls[name] = map[string]bool{}
+			allNames = append(allNames, name)
 			if recvType == "Conn" && ast.IsExported(fd.Name.Name) {
 				exported[name] = true
 			}
@@ -118,6 +122,23 @@ func factsClient(p *pkg, o *out) {
 				case *ast.SendStmt:
 					if se, ok := x.Chan.(*ast.SelectorExpr); ok && se.Sel.Name == "out" {
 						senders = append(senders, name)
+					}
+				case *ast.UnaryExpr:
+					if se, ok := x.X.(*ast.SelectorExpr); ok && x.Op.String() == "<-" && se.Sel.Name == "out" {
+						receivers[name] = true
+					}
+				case *ast.SelectorExpr:
+					if x.Sel.Name == "Lock" || x.Sel.Name == "RLock" {
+						if in, ok := x.X.(*ast.SelectorExpr); ok && in.Sel.Name == "mu" {
+							if id, ok := in.X.(*ast.Ident); ok && id.Name == recvName && recvType == "Conn" {
+								muLockers[name] = true
+							}
+						}
+					}
+					if x.Sel.Name == "io" || x.Sel.Name == "sock" {
+						if id, ok := x.X.(*ast.Ident); ok && id.Name == recvName && recvName != "" {
+							ioUsers[name] = true
+						}
 					}
 				case *ast.CallExpr:
 					if se, ok := x.Fun.(*ast.SelectorExpr); ok {
@@ -131,6 +152,58 @@ func factsClient(p *pkg, o *out) {
 		}
 		sort.Strings(senders)
 		o.strListDef("sendersOnOut", senders, true)
+		var writers, recvs, ios []string
+		for _, f := range allNames {
+			if calls[f]["Conn.write"] {
+				writers = append(writers, f)
+			}
+			if receivers[f] {
+				recvs = append(recvs, f)
+			}
+			if ioUsers[f] {
+				ios = append(ios, f)
+			}
+		}
+		sort.Strings(writers)
+		sort.Strings(recvs)
+		sort.Strings(ios)
+		o.strListDef("callersOfWrite", writers, true)
+		o.strListDef("receiversOnOut", recvs, true)
+		o.strListDef("socketUsers", ios, true)
+		// which methods take conn.mu, and which of them the connection's own goroutines (the ones closeFor waits
+		// for while holding conn.mu) can reach through direct method calls
+		var lockers []string
+		for _, f := range allNames {
+			if muLockers[f] {
+				lockers = append(lockers, f)
+			}
+		}
+		sort.Strings(lockers)
+		o.strListDef("muLockers", lockers, true)
+		var wgReach []string
+		for _, root := range []string{"Conn.ping", "Conn.recvFor", "Conn.runLoop", "Conn.send"} {
+			seen := map[string]bool{root: true}
+			todo := []string{root}
+			for len(todo) > 0 {
+				f := todo[0]
+				todo = todo[1:]
+				for g := range calls[f] {
+					if _, known := calls[g]; known && !seen[g] {
+						seen[g] = true
+						todo = append(todo, g)
+					}
+				}
+			}
+			var hit []string
+			for f := range seen {
+				if muLockers[f] {
+					hit = append(hit, f[len("Conn."):])
+				}
+			}
+			sort.Strings(hit)
+			wgReach = append(wgReach, root[len("Conn."):]+"->"+strings.Join(hit, ","))
+		}
+		o.strListDef("muReachableFromConnGoroutines", wgReach, true)
 		reach := map[string]bool{"Conn.Raw": true}
 		for changed := true; changed; {
 			changed = false
@@ -212,7 +285,7 @@ func factsClient(p *pkg, o *out) {
 		"h_STNICK", "h_JOIN", "h_PART", "h_KICK", "h_QUIT", "h_MODE", "h_TOPIC", "h_311", "h_324", "h_332", "h_352", "h_353", "h_671",
 		"Me", "EnableStateTracking", "DisableStateTracking", "initialise", "addIntHandlers", "addSTHandlers", "delSTHandlers",
 		"ConnectContext", "internalConnect", "postConnect", "dialProxy", "send", "recv", "recvFor", "closeFor", "ping", "runLoop", "Close", "drainIn", "drainOut",
-		"dispatch", "Handle", "HandleBG", "HandleFunc", "handle", "LogPanic", "Connected"} {
+		"dispatch", "Handle", "HandleBG", "HandleFunc", "handle", "LogPanic", "Connected", "setConnected"} {
 		o.shapeDef(p, "Conn", m)
 	}
 	for _, m := range []string{"Add", "Has", "Intersect", "Slice", "Size"} {
